@@ -52,6 +52,11 @@ THEOREMS = [
     'C01_grid_algorithm_satisfies_interface : WFAlg (grid_alg s st i) /\\ (grid_no_panic s st i = true -> PerformLayout -> Visits (seq 0 n) ..) /\\ (grid_no_panic .. -> PerformLayout -> SetsLast nones (seq 0 n) ..) /\\ NoHiddenSize nones ..',
     'C01_grid_algorithm_NS_partial : align_items s <> Baseline -> Forall (align_self <> Baseline) st -> ComputeSize -> SizeOnly (grid_alg s st i)',
     'C01_grid_algorithm_NS_refuted : exists s st i, ComputeSize /\\ ~ SizeOnly (grid_alg s st i) /\\ first event = PerformLayout query to child 0 (track_sizing.rs l.491 resolve_item_baselines)',
+    'C05_taffy_layout_pass_hidden_invisible, C05_taffy_layout_passes_hidden_invisible (audit 7b) : tsim t t\' -> root not display:none -> taffy_compute_root / taffy_passes '
+    '(what `vh taffytree` evaluates: root input from the root style, one memoised query, root layout stored; several passes) give None / None or tsim trees',
+    'C05_bl_real_sets_zero_on_hidden (audit 7b) : SetsZeroOnHidden bn_is_none (bl_algo pre abs_child_block) b_zeroish -- the dispatcher of the engine `vh blocktree` runs',
+    'computed instances (audit 7b): C05_grid_algorithm_hidden_blind_example (grid with a loud hidden child vs bare, equal resumptions, 19 events), '
+    'C05_taffy_engine_example (9- vs 11-node mixed trees, hidden subtree inside the GRID, both real_memo runs Some, tsim, boxes), C05_taffy_layout_passes_example (two passes)',
 ]
 
 
